@@ -1383,7 +1383,7 @@ func printPruneItemList(items []PruneItem, useColor bool, termWidth int) {
 		line.WriteString(" ")
 
 		// Title
-		title := item.Title
+		title := singleLine(item.Title)
 		if strings.TrimSpace(title) == "" {
 			title = "(no title)"
 		}
